@@ -5,7 +5,9 @@ EXTENDS DeferredM
 V(x) == <<x>>
 \* full alphabet
 ValuesF == {V("None"), V("zero"), V("one"), V("nest")}
-ExcsF   == {V("e1"), V("e2")}
+\* e1, e2: Exceptions; b1: SystemExit, b2: a user BaseException subclass - failures that are NOT Exceptions
+ExcsF   == {V("e1"), V("e2"), V("b1")}
+ExcsFT  == {V("e1"), V("e2"), V("b1"), V("b2")}
 CbF     == {"pass", "trans", "rec"}
 SuccF   == {"always", "never", "eqNone", "eqOne", "eqNest"}
 FailF   == {"always", "never", "isE1", "isE2"}
